@@ -25,7 +25,24 @@ def make(kind, scratch):
     i0 = body.index("    uint8_t* buffer = new (std::nothrow)")
     i1 = body.index("    return true;\n  }\n", i0) + len("    return true;\n")
     init = body[i0:i1]
-    if kind == "mutex":
+    if kind == "condvar":
+        new = ("inline std::mutex tables_mutex;\ninline std::condition_variable tables_cv;\n"
+               "[[nodiscard]] inline bool ensure_tables() noexcept {\n"
+               "  uint8_t state = tables_init_state.load(std::memory_order_acquire);\n"
+               "  if (state == kTablesReady) return true;\n  if (state == kTablesFailed) return false;\n"
+               "  {\n    std::unique_lock<std::mutex> lock(tables_mutex);\n"
+               "    state = tables_init_state.load(std::memory_order_acquire);\n"
+               "    if (state == kTablesInProgress) {\n"
+               "      tables_cv.wait(lock, [] { return tables_init_state.load(std::memory_order_acquire) != kTablesInProgress; });\n"
+               "      return tables_init_state.load(std::memory_order_acquire) == kTablesReady;\n    }\n"
+               "    if (state == kTablesReady) return true;\n    if (state == kTablesFailed) return false;\n"
+               "    tables_init_state.store(kTablesInProgress, std::memory_order_release);\n  }\n"
+               "  struct notifier { ~notifier() { { std::lock_guard<std::mutex> g(tables_mutex); } tables_cv.notify_all(); } } notify_on_exit;\n"
+               "  {\n" + init + "  }\n}\n")
+        out = src[:a] + new + src[b:]
+        if "#include <condition_variable>" not in out:
+            out = out.replace("#include <atomic>", "#include <atomic>\n#include <condition_variable>", 1)
+    elif kind == "mutex":
         new = ("inline std::mutex tables_mutex;\n[[nodiscard]] inline bool ensure_tables() noexcept {\n"
                "  uint8_t state = tables_init_state.load(std::memory_order_acquire);\n"
                "  if (state == kTablesReady) return true;\n  if (state == kTablesFailed) return false;\n"
@@ -33,7 +50,7 @@ def make(kind, scratch):
                "  state = tables_init_state.load(std::memory_order_acquire);\n"
                "  if (state == kTablesReady) return true;\n  if (state == kTablesFailed) return false;\n  {\n" + init + "  }\n}\n")
         out = src[:a] + new + src[b:]
-    else:
+    elif kind == "call_once":
         new = ("inline std::once_flag tables_once;\ninline bool tables_init_body() noexcept {\n" + init + "}\n"
                "[[nodiscard]] inline bool ensure_tables() noexcept {\n"
                "  std::call_once(tables_once, [] { (void)tables_init_body(); });\n"
@@ -47,7 +64,7 @@ def make(kind, scratch):
 
 
 def main():
-    kinds = sys.argv[1:] or ["mutex", "call_once"]
+    kinds = sys.argv[1:] or ["mutex", "call_once", "condvar"]
     bad = 0
     for kind in kinds:
         tmp = tempfile.mkdtemp(prefix="ada-audit-")
